@@ -42,6 +42,14 @@ let handle op args = match op, args with
     (match load_class all_classes oracle (s_of name) O with
      | Ok o -> "ok " ^ idx o
      | Err e -> "err " ^ string_of_terr e)
+  | "sv", [c; bits; name] ->
+    let conv = List.init (String.length bits) (fun i -> bits.[i] = '1') in
+    (match save_class all_classes save_suffixes (klass_of c) (s_of name) conv with
+     | None -> "ok -"
+     | Some k ->
+       (match targets image_opener_keys k (s_of name) with
+        | Ok l -> "ok " ^ str k.kname ^ " " ^ String.concat ";" (List.map (fun ((m, f), o) -> str m ^ "=" ^ str f ^ ":" ^ idx o) l)
+        | Err e -> "ok " ^ str k.kname ^ " err"))
   | "lower", [s] -> "ok " ^ str (lower (s_of s))
   | "upper", [s] -> "ok " ^ str (upper (s_of s))
   | _ -> "err driver:badop"
